@@ -10,6 +10,7 @@ import Driver.PortsOut
 import Driver.Persister
 import Driver.Persist
 import Driver.ProcStack
+import Driver.Comms
 
 /-- `pmodel <component>`: line-protocol driver over the executable model definitions. -/
 def main (args : List String) : IO UInt32 := do
@@ -27,4 +28,5 @@ def main (args : List String) : IO UInt32 := do
   | ["persist"] => DrvPersist.main; return 0
   | ["restore"] => DrvPersist.mainRestore; return 0
   | ["procstack"] => DrvProcStack.main; return 0
-  | _ => IO.eprintln "usage: pmodel <expose|fault|futures|launcher|outline|persist|persister|pm|ports|portsout|procstack|restore|savable>"; return 2
+  | ["comms"] => DrvComms.main; return 0
+  | _ => IO.eprintln "usage: pmodel <comms|expose|fault|futures|launcher|outline|persist|persister|pm|ports|portsout|procstack|restore|savable>"; return 2
